@@ -39,6 +39,12 @@ func EnableCluster(f *simrt.Tape, cfg simcluster.Config) *simcluster.Backend {
 
 func DisableCluster() { cluster.SimBackendFor = nil }
 
+// ResetProcessCaches clears process-level caches of goakt's internal packages
+// whose hit/miss state changes the number of scheduling points of a run (the
+// proto serializer's message-type cache). Call it at the start of a run that
+// uses remoting with a varying mix of message types.
+func ResetProcessCaches() { inet.VerifResetProtoTypeCache() }
+
 // ---- C34: the real membership-event machinery of internal/cluster fed with scripted notifications
 
 // EventNode is one real *cluster started over the simulated backend.
